@@ -4,7 +4,8 @@
         singleflight.Group            (Cache.headFlight / getFlight)          [MNone]
         flightCache[T].Do             (Cache.discoverKeys; cache.go)           [MSuccess, recheck]
         etagCache + headFlight        (cacheTransport.head with NewCache(true)) [MSuccess, no recheck]
-        sync.Once + result map        (apkCache.get, implementation.go)        [MAll]
+        sync.Once + result map        (apkCache.get, implementation.go)        [MSuccess, recheck: a failed
+                                      entry's once is forgotten, fix 6e5c862; MAll before it]
       Concurrent callers of one key get ONE execution of fn; what is memoised
       afterwards depends on the mechanism: nothing, successes only, or every
       result.  The events are the atomic steps of the Go code: the fast-path
@@ -36,8 +37,9 @@ Definition conf_flight_cache := {| f_mode := MSuccess; f_recheck := true |}.
 Definition conf_head_etag := {| f_mode := MSuccess; f_recheck := false |}.
 (* a bare singleflight group (headFlight without etag cache, getFlight) *)
 Definition conf_singleflight := {| f_mode := MNone; f_recheck := false |}.
-(* sync.Once per key + a map of results (apkCache.get): Once.Do looks at its done flag under
-   the lock, so nothing is executed twice; the result map keeps errors too *)
+(* sync.Once per key + a map of results that keeps errors too (HYPOTHETICAL today: apkCache.get
+   before fix 6e5c862, finding C19-F4): Once.Do looks at its done flag under the lock, so
+   nothing is executed twice *)
 Definition conf_once := {| f_mode := MAll; f_recheck := true |}.
 
 Definition keeps (m : memo_mode) (o : outcome) : bool :=
@@ -146,9 +148,19 @@ Definition pick_newest (l : list dentry) : option dentry :=
   | h :: t => Some (fold_left newer t h)
   end.
 
-(* the variant that only looks at advertised names (the repair proposed for C19-F5) *)
+(* fetchOffline since fix c5d0145 (was finding C19-F5): names ending in ".tmp" are skipped, only
+   advertised names are compared; [pick_newest] over ALL entries is what it did before *)
 Definition pick_newest_adv (l : list dentry) : option dentry :=
   pick_newest (List.filter de_adv l).
+
+(* which of the two the source of a run has: goextract lists the `if <name has suffix S> { continue }`
+   statements inside the loop over the directory *)
+Definition pick_of_filter (filter : list string) : option (list dentry -> option dentry) :=
+  match filter with
+  | [] => Some pick_newest
+  | [f] => if String.eqb f "skip-suffix:.tmp" then Some pick_newest_adv else None
+  | _ => None
+  end.
 
 (* ---- 3. what the shapes read from the source stand for ------------------------------
    goextract lists, for each coalescing site, the fast-path lookup ("fast:load-return") and
